@@ -152,6 +152,10 @@ def handbuilt_specs():
         [(0, "Branch", [V, I(1), I(11)]), (1, "op_W", [I(0)]), (2, "Branch", [V, I(2), I(6)]), (3, "op_B", [I(2)]), (4, "op_B2", [I(2)]), (5, "Jump", [I(9)]),
          (6, "op_A", [I(1)]), (7, "op_A2", [I(1)]), (8, "Jump", [I(9)]), (9, "op_E", [I(5)]), (10, "End", []),
          (11, "Branch", [V, I(3), I(14)]), (12, "op_Q", [I(3)]), (13, "Jump", [I(3)]), (14, "op_P", [I(4)]), (15, "Jump", [I(3)])])))
+    # a loop entered by a jump into its middle; a test inside falls through into the loop start
+    W = ("const", "$W")
+    out.append(("loop_entered_in_the_middle", rs(
+        [(0, "pre", [I(0)]), (1, "Jump", [I(3)]), (2, "Branch", [V, I(4), I(4)]), (3, "s5", [I(5)]), (4, "Branch", [W, I(6), I(2)]), (5, "End", [])])))
     # both arms of an inner if end in a jump to their join, a sibling arm of the enclosing if ends in a jump of its own
     for n_else, n_if in ((4, 1), (2, 2), (1, 3)):
         ops = [(0, "Branch", [V, I(1), None]), (1, "Branch", [V, I(2), None])]
